@@ -12,6 +12,7 @@ Step ==
        CASE e.ev = "FillMonth" -> FillMonthOK(e.avail, e.out, e.kd, e.pf1, e.T)
          [] e.ev = "Retime" -> RetimeOK(e.m1, e.m2, e.r)
          [] e.ev = "RetimeSkip" -> RetimeSkipOK(e.m1, e.m2)
+         [] e.ev = "MeatGiven" -> GivenOK(e.m1, e.g)
          [] e.ev = "Running" -> RunningOK(e.meat, e.running)
          [] e.ev = "Bump" -> BumpOK(e.b, e.f, e.maxB, e.maxF, e.b2, e.f2, e.dom)
   /\ l' = l + 1 /\ UNCHANGED tid
